@@ -1,4 +1,5 @@
 import SSV.Proofs.StreamRequest
+import SSV.Proofs.StreamStickyBase
 import SSV.Model.StreamToy
 /-
 C01 — Shadowsocks 2022 TCP tunnel delivers the exact byte stream both ways.
@@ -270,6 +271,28 @@ theorem p_first (C : Crypto) (hC : AeadOK C) (k : Bytes) (t : Addr) (P : Bytes) 
   have := (run_ok hC ops _ _ hs).2
   simpa [pending, writeChunks_flatten, calls_flatten] using this
 
+
+/-- **request_stable**: the target address in the `ConnRequest` is a value: it reads the same when
+the server looks at it again after its conn has written (whatever now occupies the buffer the
+request was parsed in). Depends on the regenerated fact `connAddrFromSliceCopies`
+(`socks5.ConnAddrFromSlice` copies the domain name; `HandleStream` parses inside the conn's write
+buffer, so an aliasing parser makes the address change under the server's feet). -/
+theorem request_stable (a : Addr) (overwritten : Bytes) : addrSeenLater a overwritten = a := by
+  have hf : connAddrFromSliceCopies = true := by decide
+  cases a <;> simp [addrSeenLater, hf]
+
+/-- **stream_roundtrip_conn**: `stream_roundtrip` for the conn with its sticky read error
+(`readErr`, repair of F22): on a genuine stream the guard never fires, the outcomes are the same. -/
+theorem stream_roundtrip_conn (C : Crypto) (hC : AeadOK C) (k : Bytes) (n0 : Nat) (calls : List WCall)
+    (segs : List Bytes)
+    (hseg : segs.flatten = (Writer.emit C ⟨k, n0⟩ (calls.flatMap WCall.chunks)).1.flatten)
+    (ops : List ROp) :
+    SReader.run C ⟨⟨k, n0, [], segs.flatten⟩, none⟩ ops = Reader.run C ⟨k, n0, [], segs.flatten⟩ ops ∧
+    Delivers (calls.map WCall.data).flatten (SReader.run C ⟨⟨k, n0, [], segs.flatten⟩, none⟩ ops) := by
+  have h := stream_roundtrip C hC k n0 calls segs hseg ops
+  have e := srun_eq_run C ops ⟨k, n0, [], segs.flatten⟩ h.1
+  exact ⟨e, by rw [e]; exact h.2⟩
+
 /-- the splitting loops of `Write` / `ReadFrom` lose nothing and respect the chunk limit -/
 theorem writer_chunks_valid (calls : List WCall) :
     ValidChunks (calls.flatMap WCall.chunks) ∧
@@ -292,3 +315,5 @@ end SSV.C01
 #print axioms SSV.C01.plainCrypto_eih
 #print axioms SSV.C01.request_observed
 #print axioms SSV.C01.p_first
+#print axioms SSV.C01.request_stable
+#print axioms SSV.C01.stream_roundtrip_conn
